@@ -168,6 +168,10 @@ def merge_and_split(ctx, repo):
                 roles[t.id] = "rules"
             elif isinstance(t, ast.Name) and isinstance(v, ast.Call) and ast.unparse(v.func) == "create_groupings":
                 roles[t.id] = "groupings"
+    for n in walk_own(fn):
+        # loop form of the vectorisation step: `out[name] = _vectorize_func(f)`
+        if isinstance(n, ast.Assign) and isinstance(n.targets[0], ast.Subscript) and isinstance(n.targets[0].value, ast.Name) and isinstance(n.value, ast.Call) and ast.unparse(n.value.func) == "_vectorize_func":
+            roles.setdefault(n.targets[0].value.id, "rules")
     order = [roles.get(o, "?") for o in ops]
     want = ["pid", "time", "rules", "grp", "groupings"]
     ok = order == want
@@ -217,6 +221,16 @@ def merge_and_split(ctx, repo):
                 out.append([(c, True) for g_ in n.value.generators for c in g_.ifs])
             if isinstance(n, ast.Assign) and isinstance(n.targets[0], ast.Subscript) and isinstance(n.targets[0].value, ast.Name) and n.targets[0].value.id == var:
                 out.append(dom.of(n))
+            # `target = A if c else B; target[name] = f`: the store reaches A under c and B under not c
+            if isinstance(n, ast.Assign) and isinstance(n.targets[0], ast.Subscript) and isinstance(n.targets[0].value, ast.Name) and n.targets[0].value.id != var:
+                alias = n.targets[0].value.id
+                defs_ = [a for a in walk_own(splitter) if isinstance(a, ast.Assign) and len(a.targets) == 1 and isinstance(a.targets[0], ast.Name) and a.targets[0].id == alias]
+                if len(defs_) == 1 and isinstance(defs_[0].value, ast.IfExp) and isinstance(defs_[0].value.body, ast.Name) and isinstance(defs_[0].value.orelse, ast.Name):
+                    ie = defs_[0].value
+                    if ie.body.id == var:
+                        out.append([*dom.of(n), (ie.test, True)])
+                    if ie.orelse.id == var:
+                        out.append([*dom.of(n), (ie.test, False)])
         return out
 
     oksplit = True
